@@ -775,6 +775,12 @@ var c20RewriteFrom = []string{"/x", "/a/b", "/c", "/a/b/c", "/ab", "/b/a"}
 // {rewrite_path}, {file} ... show); log scopes and exceptions must not depend on it.
 func c20Cur(in *c20In) string {
 	p := in.Path
+	// an error status or a panic that reaches the log middleware itself (no errors directive in
+	// between): log.go restores r.URL = &preURL before it writes the error response, and the line
+	// is expanded after that, so the r.URL-based placeholders show the requested path again
+	if !in.HasErr && (in.Ret >= 400 || c20Panics(in.Ops)) {
+		return p
+	}
 	switch in.Wrap {
 	case "rewrite":
 		if t, ok := c20RewriteTable[p]; ok {
